@@ -71,6 +71,25 @@ type Run struct {
 
 	cleanup    []func()
 	firstFault string
+
+	// Vars are per-run settings a world draws once and its helpers read (nil until first set).
+	Vars map[string]string
+}
+
+// Var returns a per-run setting, or def when the run has not set it.
+func (r *Run) Var(name, def string) string {
+	if v, ok := r.Vars[name]; ok {
+		return v
+	}
+	return def
+}
+
+// SetVar records a per-run setting.
+func (r *Run) SetVar(name, v string) {
+	if r.Vars == nil {
+		r.Vars = map[string]string{}
+	}
+	r.Vars[name] = v
 }
 
 const keepHead, keepTail = 400, 200
